@@ -571,6 +571,7 @@ def c18(tier):
     try:
         res = run_gosymx([{"pkg": "validation", "harness": "VerifC18_Langs", "workers": 4, "timeout_ms": 20000}], tmp)
         r = res["results"][0]
+        out.coverage["repo_functions_encoded"] = sorted(f for f in (r.get("functions") or {}) if "openfga/language/pkg/go" in f and "/zzverif" not in f)
         for k, n in (r.get("inconclusive") or {}).items():
             out.inconclusive.append("VerifC18_Langs: %s (x%d)" % (k, n))
 
@@ -692,11 +693,11 @@ def c16(tier):
             T("transformer", "VerifC07_Merge", {"SCEN": 5, "N": 1, "NR": 1}),
             T("transformer", "VerifC07_Merge", {"SCEN": 0, "F": 2, "DECLS": 3, "RELS": 1, "CONDS": 1, "FAULTS": 0, "N": 2, "NR": 1}),
             LJ("VerifListener_Doc", tier, MODULES=1, EXTEND=1, NODES=1, DEPTH=0, CONDS=2),
-            T("transformer", "VerifC16_SyntaxError")]
+            T("transformer", "VerifC16_SyntaxError"), T("transformer", "VerifC16_ErrorTexts")]
     out = engine_a_check("C16", tier, jobs,
                          {"VerifC16_TypeLine": ["type"], "VerifC16_ExtendedTypeLine": ["extend"], "VerifC16_ConditionLine": ["condition"],
                           "VerifC16_RelationLine": ["relation"], "VerifC16_Column": ["column"],
-                          "VerifC08_OddLines": ["declaration", "no-declaration"], "VerifC08_FreeLine": ["declaration", "no-declaration"], "VerifC03_PrePass": ["lemmas-checked"], "VerifC07_Merge": ["rejected"], "VerifListener_Doc": ["rejected"], "VerifC16_SyntaxError": ["recorded"]},
+                          "VerifC08_OddLines": ["declaration", "no-declaration"], "VerifC08_FreeLine": ["declaration", "no-declaration"], "VerifC03_PrePass": ["lemmas-checked"], "VerifC07_Merge": ["rejected"], "VerifListener_Doc": ["rejected"], "VerifC16_SyntaxError": ["recorded"], "VerifC16_ErrorTexts": ["texts"], "VerifC16_PrePassRunes": ["lemmas-checked"]},
                          ["ANTLR token positions with respect to the cleaned text are outside (lexer/parser not encoded)",
                           "declaration lines follow the layout <indent><keyword> <name><tail>"], "",
                          bounds={"line lookups": "<= %d declarations, names of length 1..%d over {a,e,t,_,.,-}, %d indents and %d keyword-name separators (blanks, tabs, form feeds), 2-3 tails" % (d + 1, n, lay["NI"], lay["NS"]),
@@ -910,7 +911,8 @@ def c06(tier):
 
 
 def c10(tier):
-    graph_check("C10", 10, tier, [("B", *FI), ("P", *FI), ("J", *FI), ("J4", *FI), ("J5", *FI), ("J6", *FI), ("K", *FI), ("H", *FI), ("G", *FI), ("Q", *FI), ("Q2", *FI), ("S1", *FI), ("W", *FI), ("NC", *FI)], [("D", *FI), ("E", *FI), ("P", *RA), ("L", *FI), ("G", *FI), ("H", *FI), ("J", *FI), ("K", *FI)])
+    api = dict(T("graph", "VerifC10_PublicAPI"), _reach=["checked"])
+    graph_check("C10", 10, tier, [("B", *FI), ("P", *FI), ("J", *FI), ("J4", *FI), ("J5", *FI), ("J6", *FI), ("K", *FI), ("H", *FI), ("G", *FI), ("Q", *FI), ("Q2", *FI), ("S1", *FI), ("W", *FI), ("NC", *FI)], [("D", *FI), ("E", *FI), ("P", *RA), ("L", *FI), ("G", *FI), ("H", *FI), ("J", *FI), ("K", *FI)], extra_jobs=[api])
 
 
 def c11(tier):
